@@ -415,7 +415,6 @@ def _is_d07(sub, case, v):
 
 
 FINDINGS = [
-    Finding("D01", _is_d01, "fill/fill_n into a gap of an integer-dtype histogram raises (NaN marker in int array)"),
     Finding("D07", _is_d07, "scalar fill(nan) is counted as overflow / missed while fill_n and construction skip NaN"),
 ]
 
